@@ -63,7 +63,7 @@ func (sdb *PreparedStmtDB) Reset() {
 	sdb.Mux.Lock()
 	defer sdb.Mux.Unlock()
 
-	for _, stmt := range sdb.Stmts {
+	for query, stmt := range sdb.Stmts {
 		go func(s *Stmt) {
 			// make sure the stmt must finish preparation first
 			<-s.prepared
@@ -71,8 +71,10 @@ func (sdb *PreparedStmtDB) Reset() {
 				_ = s.Close()
 			}
 		}(stmt)
+		// session-level handles are copies that share this map: empty it in place, a new map
+		// would leave the closed statements visible to every other handle
+		delete(sdb.Stmts, query)
 	}
-	sdb.Stmts = make(map[string]*Stmt)
 }
 
 func (db *PreparedStmtDB) prepare(ctx context.Context, conn ConnPool, isTransaction bool, query string) (Stmt, error) {
